@@ -4,7 +4,7 @@
    correspondence run compares with the compiled code.  Parser / planner / executor are explored
    with a crash oracle (harness/src/bin/c22.rs), not proved. *)
 From Coq Require Import ZArith List Bool.
-From TV Require Import Model.Lexer Model.Literal Proof.LexerTotal Proof.Literal.
+From TV Require Import Model.Lexer Model.Literal Proof.LexerTotal Proof.Literal Proof.LexerDepth.
 Import ListNotations.
 Open Scope Z_scope.
 
@@ -46,6 +46,15 @@ Theorem literal_no_panic_refuted :
   (exists l, utf8_valid l = true /\ lit_known f_lpt l = 4 /\ run_lit f_lpt l = Some LitPanic).
 Proof. exact literal_no_panic_refuted_l. Qed.
 
+(* EVERY n below 2^32 - 1: on n consecutive comments "--\n" next_token calls itself n times before
+   it returns Eof (last component of the result = nested self.next_token() calls = Rust stack frames):
+   the recursion depth is bounded by nothing but the input length.  The resulting stack overflow of
+   the real lexer is finding F-C22-12 (witness replayed on the compiled code by every run). *)
+Theorem lexer_comment_recursion :
+  forall n, Z.of_nat n < 4294967295 ->
+    lex (comments n) = Ok ([L (T 0) (3 * n) (3 * n)], mkLx (3 * n) (1 + Z.of_nat n) 1, n).
+Proof. exact lexer_comment_depth_l. Qed.
+
 (* ---- non-vacuity and tightness of the hypotheses *)
 (* "a, 'é' <- x" : valid UTF-8, lexes to 6 tokens + Eof, second line/column tracked *)
 Example lexer_witness :
@@ -60,9 +69,8 @@ Proof. vm_compute. split; reflexivity. Qed.
 Example lexer_utf8_hypothesis_needed : utf8_valid [97; 169] = false /\ lex [97; 169] = Panic.
 Proof. vm_compute. split; reflexivity. Qed.
 
-(* one Rust stack frame per consecutive comment: 300 comments -> 300 nested next_token calls
-   (finding F-C22-12: ~100000 comments overflow the stack of the real lexer) *)
-Example lexer_comment_recursion :
+(* a concrete instance of lexer_comment_recursion below, by evaluation, with a comment body *)
+Example lexer_comment_recursion_300 :
   match lex (concat (repeat [45; 45; 99; 10] 300)) with Ok (_, _, d) => d = 300%nat | _ => False end.
 Proof. vm_compute. reflexivity. Qed.
 
@@ -85,9 +93,11 @@ Check literal_no_panic_refuted :
   (exists l, utf8_valid l = true /\ lit_known f_time l = 3 /\ run_lit f_time l = Some LitPanic) /\
   (exists l, utf8_valid l = true /\ lit_known f_lp l = 4 /\ run_lit f_lp l = Some LitPanic) /\
   (exists l, utf8_valid l = true /\ lit_known f_lpt l = 4 /\ run_lit f_lpt l = Some LitPanic).
+Check lexer_comment_recursion : forall n, Z.of_nat n < 4294967295 -> lex (comments n) = Ok ([L (T 0) (3 * n) (3 * n)], mkLx (3 * n) (1 + Z.of_nat n) 1, n).
 
 Print Assumptions lexer_total.
 Print Assumptions lexer_progress.
 Print Assumptions lexer_no_panic.
 Print Assumptions literal_no_panic.
 Print Assumptions literal_no_panic_refuted.
+Print Assumptions lexer_comment_recursion.
